@@ -11,8 +11,9 @@ Export Coq.Strings.String.StringSyntax.
 Import ListNotations.
 Local Open Scope N_scope.
 
-Definition rune := N.
-Definition str := list rune.
+(* plain aliases (notations, so that no conversion is ever needed between str and list N) *)
+Notation rune := N (only parsing).
+Notation str := (list N) (only parsing).
 
 Inductive sexp := SZ (z : Z) | SS (s : str) | SL (l : list sexp).
 
